@@ -153,10 +153,9 @@ def _load_v2(stream: InventoryFileReader, base_url: str | None) -> InventoryType
             #
             # Note: To avoid the regex DoS, this is implemented in python (refs: #8175)
             continue
-        if (
-            type == "py:module"
-            and type in invdata["objects"]
-            and name in invdata["objects"][type]
+        domain, objtype = type.split(":", 1)
+        if type == "py:module" and name in invdata["objects"].get(domain, {}).get(
+            objtype, {}
         ):
             # due to a bug in 1.1 and below,
             # two inventory entries are created
@@ -165,7 +164,6 @@ def _load_v2(stream: InventoryFileReader, base_url: str | None) -> InventoryType
             continue
         if location.endswith("$"):
             location = location[:-1] + name
-        domain, objtype = type.split(":", 1)
         invdata["objects"].setdefault(domain, {}).setdefault(objtype, {})
         if not text or text == "-":
             text = None
